@@ -1,8 +1,118 @@
 import LinfaSpec.Model.Optics
+import Mathlib.Order.Defs.LinearOrder
 
 /-!
 Helper lemmas for C08 — OPTICS model (`LinfaSpec.Optics`).
 -/
 namespace LinfaSpec.Optics
+
+section structural
+variable {D : Type} [LT D] [DecidableLT D]
+
+/-- every listed entry carries `set_core_distance` of its own sorted neighbour list -/
+def CoreOK (nbrs : Nat → List Nat) (dist : Nat → Nat → D) (mp : Nat) (out : List (Entry D)) : Prop :=
+  ∀ e ∈ out, e.core = coreDist dist mp e.index (findNeighbors nbrs dist e.index)
+
+theorem CoreOK_append (nbrs : Nat → List Nat) (dist : Nat → Nat → D) (mp : Nat)
+    (out : List (Entry D)) (j : Nat) (r : Option D) (h : CoreOK nbrs dist mp out) :
+    CoreOK nbrs dist mp
+      (out ++ [{ index := j, core := coreDist dist mp j (findNeighbors nbrs dist j), reach := r }]) := by
+  intro e he
+  rcases List.mem_append.mp he with a | a
+  · exact h e a
+  · simp at a; subst a; rfl
+
+theorem seedStep_out (nbrs : Nat → List Nat) (dist : Nat → Nat → D) (mp : Nat) (s : State D)
+    (sorted : List Nat) (j0 : Nat) :
+    ∃ j r, (seedStep nbrs dist mp s sorted j0).out =
+      s.out ++ [{ index := j, core := coreDist dist mp j (findNeighbors nbrs dist j), reach := r }] := by
+  unfold seedStep
+  simp only
+  split <;> exact ⟨_, _, rfl⟩
+
+theorem seedLoop_CoreOK (nbrs : Nat → List Nat) (dist : Nat → Nat → D) (mp : Nat) :
+    ∀ fuel (s : State D), CoreOK nbrs dist mp s.out →
+      CoreOK nbrs dist mp (seedLoop nbrs dist mp fuel s).out := by
+  intro fuel
+  induction fuel with
+  | zero => intro s h; exact h
+  | succ fuel ih =>
+    intro s h
+    unfold seedLoop
+    split
+    · exact h
+    · rename_i j0 rest _
+      apply ih
+      obtain ⟨j, r, e⟩ := seedStep_out nbrs dist mp s (j0 :: rest) j0
+      rw [e]
+      exact CoreOK_append nbrs dist mp _ j r h
+
+theorem outerStep_CoreOK (nbrs : Nat → List Nat) (dist : Nat → Nat → D) (mp n : Nat)
+    (s : State D) (i : Nat) (h : CoreOK nbrs dist mp s.out) :
+    CoreOK nbrs dist mp (outerStep nbrs dist mp n s i).out := by
+  unfold outerStep
+  split
+  · exact h
+  · simp only
+    split
+    · rename_i cd hc
+      apply seedLoop_CoreOK
+      simp only
+      exact CoreOK_append nbrs dist mp _ i _ h
+    · rename_i hc
+      simp only
+      first
+        | exact CoreOK_append nbrs dist mp _ i _ h
+        | (rw [← hc]; exact CoreOK_append nbrs dist mp _ i _ h)
+
+theorem foldl_CoreOK (nbrs : Nat → List Nat) (dist : Nat → Nat → D) (mp n : Nat) :
+    ∀ (l : List Nat) (s : State D), CoreOK nbrs dist mp s.out →
+      CoreOK nbrs dist mp (l.foldl (outerStep nbrs dist mp n) s).out := by
+  intro l
+  induction l with
+  | nil => intro s h; exact h
+  | cons i l ih => intro s h; exact ih _ (outerStep_CoreOK nbrs dist mp n s i h)
+
+end structural
+
+section order
+variable {D : Type} [LinearOrder D]
+
+theorem findNeighbors_perm (nbrs : Nat → List Nat) (dist : Nat → Nat → D) (i : Nat) :
+    (findNeighbors nbrs dist i).Perm (nbrs i) := List.mergeSort_perm _ _
+
+theorem findNeighbors_sorted (nbrs : Nat → List Nat) (dist : Nat → Nat → D) (i : Nat) :
+    ((findNeighbors nbrs dist i).map (dist i)).Pairwise (· ≤ ·) := by
+  rw [List.pairwise_map]
+  have := List.pairwise_mergeSort (le := fun a b => !(decide (dist i b < dist i a)))
+    (by
+      intro a b c h1 h2
+      simp only [Bool.not_eq_true', decide_eq_false_iff_not, not_lt] at h1 h2 ⊢
+      exact le_trans h1 h2)
+    (by
+      intro a b
+      simp only [Bool.or_eq_true, Bool.not_eq_true', decide_eq_false_iff_not, not_lt]
+      exact le_total _ _)
+    (nbrs i)
+  refine List.Pairwise.imp ?_ this
+  intro a b h
+  simpa using h
+
+/-- the sorted list of in-range distances does not depend on the order of the query result -/
+theorem sorted_dists_unique (nbrs nbrs' : Nat → List Nat) (dist : Nat → Nat → D) (i : Nat)
+    (h : (nbrs i).Perm (nbrs' i)) :
+    (findNeighbors nbrs dist i).map (dist i) = (findNeighbors nbrs' dist i).map (dist i) := by
+  apply List.Perm.eq_of_pairwise (le := (· ≤ ·))
+  · intro a b _ _ h1 h2; exact le_antisymm h1 h2
+  · exact findNeighbors_sorted nbrs dist i
+  · exact findNeighbors_sorted nbrs' dist i
+  · exact ((findNeighbors_perm nbrs dist i).trans (h.trans (findNeighbors_perm nbrs' dist i).symm)).map _
+
+theorem coreDist_eq (dist : Nat → Nat → D) (mp i : Nat) (ns : List Nat) :
+    coreDist dist mp i ns = (ns.map (dist i))[mp - 1]? := by
+  unfold coreDist
+  rw [List.getElem?_map]
+
+end order
 
 end LinfaSpec.Optics
